@@ -1,33 +1,19 @@
-import PycsepVerif.Proto
-import PycsepVerif.Soft64
-import PycsepVerif.Model.Ecdf
+import PycsepVerif.Drive.Soft
+import PycsepVerif.Drive.C09
+-- REGISTER-IMPORT (one `import PycsepVerif.Drive.Cxx` line per property, above this line)
 
-open Proto
+/-- the per-property handlers, tried in order; each returns `none` for ops it does not know -/
+def handlers : List (List String → Option String) := [
+  Drive.Soft.handle,
+  Drive.C09.handle
+  -- REGISTER-HANDLER (`, Drive.Cxx.handle` lines above this line)
+]
 
 /-- one request line → one response line. Unknown or malformed requests give `bad-op`. -/
 def handle (toks : List String) : String :=
-  match toks with
-  -- Soft64 validation ops
-  | ["fl64", x] => match parseRat? x with
-      | some r => showRat (Soft64.fl64 r) | none => "bad-op"
-  | ["fadd", a, b] => match parseRat? a, parseRat? b with
-      | some a, some b => showRat (Soft64.fadd a b) | _, _ => "bad-op"
-  | ["fsub", a, b] => match parseRat? a, parseRat? b with
-      | some a, some b => showRat (Soft64.fsub a b) | _, _ => "bad-op"
-  | ["fmul", a, b] => match parseRat? a, parseRat? b with
-      | some a, some b => showRat (Soft64.fmul a b) | _, _ => "bad-op"
-  | ["fdiv", a, b] => match parseRat? a, parseRat? b with
-      | some a, some b => if b = 0 then "bad-op" else showRat (Soft64.fdiv a b) | _, _ => "bad-op"
-  | ["fl32", x] => match parseRat? x with
-      | some r => showRat (Soft64.fl32 r) | none => "bad-op"
-  -- C09
-  | ["ge_ecdf", xs, v] => match parseList? parseRat? xs, parseRat? v with
-      | some xs, some v => showOpt showPair (Ecdf.geEcdf xs v) | _, _ => "bad-op"
-  | ["le_ecdf", xs, v] => match parseList? parseRat? xs, parseRat? v with
-      | some xs, some v => showOpt showPair (Ecdf.leEcdf xs v) | _, _ => "bad-op"
-  | ["binned_ecdf", xs, vs] => match parseList? parseRat? xs, parseList? parseRat? vs with
-      | some xs, some vs => showOpt (showList showPair) (Ecdf.binnedEcdf xs vs) | _, _ => "bad-op"
-  | _ => "bad-op"
+  match handlers.findSome? (fun h => h toks) with
+  | some s => s
+  | none => "bad-op"
 
 partial def loop (hin : IO.FS.Stream) (hout : IO.FS.Stream) : IO Unit := do
   let line ← hin.getLine
